@@ -85,6 +85,8 @@ def value_bytes(v):
         return x.encode('utf-8')
     if t == 'f':
         return refvm.f32_encode(x)
+    if t == 'fi':          # float literal written without a fractional part (f-3)
+        return refvm.f32_encode(float(x))
     raise AsmError(t)
 
 
@@ -180,6 +182,8 @@ def encode(s):
         t, x = ops[0]
         if t == 'f':
             return c + refvm.f32_encode(x)
+        if t == 'fi':
+            return c + refvm.f32_encode(float(x))
         if t == 'x' and len(x) == 4:
             return c + bytes(x)
         raise AsmError('float operand')
@@ -229,7 +233,7 @@ class Style:
 
     def value(self, v):
         t, x = v
-        p = t if self.valprefix == 'lower' else t.upper()
+        p = t[0] if self.valprefix == 'lower' else t[0].upper()
         if t == 'd':
             return '%s%d' % (p, x)
         if t == 'x':
@@ -239,6 +243,8 @@ class Style:
             return 's%s%s%s' % (self.quote, x, self.quote)
         if t == 'f':
             return p + repr(float(x))
+        if t == 'fi':
+            return ('f' if self.valprefix == 'lower' else 'F') + '%d' % x
         raise AsmError(t)
 
 
